@@ -226,7 +226,7 @@ func (w *World) buildPackageController() {
 		w.Images = AllFixtures()
 	}
 	c := pkgctrl.NewPackageController(w.Client, w.Uncached, logr.Discard(), w.Scheme, scriptedPuller{w}, nil, nil, nil)
-	c.SetEnvironment(&manifests.PackageEnvironment{Kubernetes: manifests.PackageEnvironmentKubernetes{Version: "v1.28.0"}})
+	c.SetEnvironment(w.theEnvironment())
 	w.Ctrls["pk"] = c
 }
 
